@@ -200,3 +200,7 @@ RULES.append(("C08.RENDER", "the two renderings of area trees: decision tables o
 
 
 RULES.append(("C08.LISTTOTAL", "`hyeong check` lists any parse result without crashing: panic audit below check::run (shared with C04.LISTING)", p_c04.rule_listing_total))
+
+
+RULES.append(("C08.GROUP", "command fields are assigned only as part of an accepted command start; unmatched start syllables are skipped by absolute character index (shared with C04.GROUP)", p_c04.rule_group))
+RULES.append(("C08.DEFS", "dot counting, location, newline tracking and the index kind of both passes (shared with C04.DEFS)", p_c04.rule_defs))
